@@ -713,6 +713,43 @@ func headerLoopSites(c *Ctx, fn *ssa.Function, req ssa.Value, depth int) (sites 
 	} else if len(ranges) > 0 {
 		iteratedOnly = true
 	}
+	// a header-level helper: addStaticHeaders(req.Header, t.configured) ranging over its second argument and adding to
+	// its first
+	ir.EachInstr(fn, func(_ *ssa.BasicBlock, _ int, in ssa.Instruction) {
+		call, ok := in.(*ssa.Call)
+		if !ok {
+			return
+		}
+		sc := ir.StaticCallee(call)
+		if sc == nil || !c.P.IsLib(sc) {
+			return
+		}
+		dst, src := -1, -1
+		for i, a := range call.Call.Args {
+			if headerOfReq(a, reqVals) {
+				dst = i
+			} else if f, _, ok := ir.LoadedField(a); ok && ir.TypeStr(f.Type) == "net/http.Header" {
+				src = i
+			}
+		}
+		if dst < 0 || src < 0 || dst >= len(sc.Params) || src >= len(sc.Params) {
+			return
+		}
+		ranges, addsTo := false, false
+		ir.EachInstr(sc, func(_ *ssa.BasicBlock, _ int, in2 ssa.Instruction) {
+			if r, ok := in2.(*ssa.Range); ok && r.X == ssa.Value(sc.Params[src]) {
+				ranges = true
+			}
+			if ic, ok := in2.(*ssa.Call); ok && ir.CallName(ic) == "(net/http.Header).Add" && len(ic.Call.Args) == 3 && ic.Call.Args[0] == ssa.Value(sc.Params[dst]) {
+				if _, isConst := ic.Call.Args[1].(*ssa.Const); !isConst {
+					addsTo = true
+				}
+			}
+		})
+		if ranges && addsTo {
+			sites = append(sites, call)
+		}
+	})
 	if depth < 2 {
 		for _, hc := range helperCallsWithReq(c, fn, reqVals) {
 			inner, _ := headerLoopSites(c, hc.callee, hc.param, depth+1)
